@@ -2,6 +2,6 @@
 EXTENDS ProcessProps
 MCProgs == <<[name |-> "W1", steps |-> <<[kind |-> "sync", n |-> 0, status |-> "-", emits |-> <<>>, cmd |-> "await", next |-> 2, args |-> <<>>, kw |-> <<>>, val |-> "-", aws |-> <<1, 2>>, via |-> "return", makes |-> <<1, 2>>], [kind |-> "sync", n |-> 0, status |-> "-", emits |-> <<>>, cmd |-> "stop", next |-> 0, args |-> <<>>, kw |-> <<>>, val |-> "-", aws |-> <<>>, via |-> "return", makes |-> <<>>]>>, outMissing |-> FALSE, awt |-> <<"a", "b">>], [name |-> "W3", steps |-> <<[kind |-> "sync", n |-> 0, status |-> "-", emits |-> <<>>, cmd |-> "await", next |-> 2, args |-> <<>>, kw |-> <<>>, val |-> "-", aws |-> <<1>>, via |-> "return", makes |-> <<1>>], [kind |-> "sync", n |-> 0, status |-> "-", emits |-> <<>>, cmd |-> "await", next |-> 3, args |-> <<>>, kw |-> <<>>, val |-> "-", aws |-> <<2>>, via |-> "return", makes |-> <<2>>], [kind |-> "sync", n |-> 0, status |-> "-", emits |-> <<>>, cmd |-> "stop", next |-> 0, args |-> <<>>, kw |-> <<>>, val |-> "-", aws |-> <<>>, via |-> "return", makes |-> <<>>]>>, outMissing |-> FALSE, awt |-> <<"a", "a">>]>>
 MCPlans == <<<<>>>>
-MCFixes == {"F1", "F11", "F12", "F2", "F4", "F5", "F6", "F7", "F8", "F9"}
+MCFixes == {"F1", "F10", "F11", "F12", "F13", "F13b", "F15", "F16", "F17", "F2", "F4", "F5", "F6", "F7", "F8", "F9"}
 MCAlphabet == {"complete", "kill", "pause", "play"}
 ====
